@@ -171,6 +171,17 @@ def pynurbs_float_functions():
 
 
 class ExactEngine:
+    def cap_allowed(self, q, depth=0):
+        """the documented coordinate cap: in Point2D.__init__ itself, or in a private helper of Point2D whose only callers
+        are allowed (the same statement moved into `_bounded_fraction`)"""
+        if q in CAP_ALLOWED:
+            return True
+        fn = self.M.funcs.get(q)
+        if fn is None or depth > 2 or fn.cls != "Point2D" or not (fn.name.startswith("_") and not fn.name.endswith("__")):
+            return False
+        callers = [c for c in self.M.funcs if c != q and q in self.ctx.graph.callees(c)]
+        return bool(callers) and all(self.cap_allowed(c, depth + 1) for c in callers)
+
     def __init__(self, ctx):
         self.ctx = ctx
         self.M = ctx.model
@@ -407,7 +418,7 @@ class X:
                         self.flag(e, f"Fraction API `{last}` receives a float argument")
             if last == "limit_denominator":
                 base = self.ev(e.func.value) if isinstance(e.func, ast.Attribute) else "S"
-                if self.q in CAP_ALLOWED:
+                if self.eng.cap_allowed(self.q):
                     v = pat.const_value(e.args[0]) if e.args else None
                     if v is None and e.args:
                         v = self.class_const_value(e.args[0])        # self.max_denom / Point2D.MAX_DEN = int(1 / tol) ...
